@@ -4,7 +4,10 @@
   library code and is exercised by the harness, not modelled.
 -/
 import ClarabelModel.Json
+import ClarabelModel.JsonLoad
 import ClarabelProofs.Lemmas.UpdateJson
+import ClarabelProofs.Lemmas.JsonLoad
+import ClarabelProofs.Lemmas.JsonCones
 import ClarabelProofs.Props.C09
 
 namespace Clarabel.C19
@@ -200,5 +203,314 @@ theorem load_builds_same_internal_presolve_off (P : Csc α) (q : Array α) (A : 
     (C09.cap_presolve_off P q A b cones inf d h).1 hmin rfl
 
 end load
+
+/-! ### round 3: `load_from_file` after the parse, `save_to_file` before the text layer -/
+
+section loadfile
+open Clarabel.JsonLoad Clarabel.Cones
+variable {γ : Type}
+
+section verdict
+variable [Add α] [Sub α] [Mul α] [LT α] [DecidableLT α] [OfNat α 0] [OfNat α 1] [OfScientific α]
+  [FloatLike α]
+
+/-- [S] **Which error for which defect.**  The verdict of `load_from_file` on a record that
+parsed is determined test by test, in the order of the code:
+1. `P.check_format()` fails with `e` (not `Canonical0`, `C16.check_format_iff`) → `invalid matrix P: e`;
+2. else `A.check_format()` fails with `e` → `invalid matrix A: e`;
+3. else the settings in force (the argument if given, else the de-sanitised file settings)
+   carry an unknown `direct_solve_method` / `chordal_decomposition_merge_method` → that
+   `validate` error;
+4. else some `GenPowerConeT` exponent vector fails the constructor's test → `invalid
+   GenPowerConeT exponents`;
+5. else `P` not square, `P.n ≠ |q|`, `A.n ≠ |q|`, `A.m ≠ |b|` or the checked `usize` sum of the
+   cone sizes is not `|b|` (overflow included) → `inconsistent problem dimensions`;
+6. else `Ok`: `DefaultSolver::new` is called with the record's `P, q, A, b, cones` and those
+   settings.
+The separate `colptr.first()` test can never fire (`check_format` already rejects a nonzero
+first column pointer since /repo 190e6c4). -/
+theorem load_error_kinds (ft : Features) (d : Record α γ) (arg : Option (LSettings α γ)) :
+    (∀ e, d.P.checkFormat = .error e → loadRecord ft d arg = .error (.invalidP e)) ∧
+    (d.P.checkFormat = .ok () → ∀ e, d.A.checkFormat = .error e →
+      loadRecord ft d arg = .error (.invalidA e)) ∧
+    (d.P.checkFormat = .ok () → d.A.checkFormat = .ok () →
+      ∀ f, validateSettings ft (loadSettings d.settings arg) = .error f →
+      loadRecord ft d arg = .error (.settings f)) ∧
+    (d.P.checkFormat = .ok () → d.A.checkFormat = .ok () →
+      validateSettings ft (loadSettings d.settings arg) = .ok () →
+      d.cones.any badGenpow = true → loadRecord ft d arg = .error .genpow) ∧
+    (d.P.checkFormat = .ok () → d.A.checkFormat = .ok () →
+      validateSettings ft (loadSettings d.settings arg) = .ok () →
+      d.cones.any badGenpow = false → ¬ DimsOk d → loadRecord ft d arg = .error .dimensions) ∧
+    (d.P.checkFormat = .ok () → d.A.checkFormat = .ok () →
+      validateSettings ft (loadSettings d.settings arg) = .ok () →
+      d.cones.any badGenpow = false → DimsOk d → loadRecord ft d arg = .ok (inputOf d arg)) ∧
+    loadRecord ft d arg ≠ .error .colptr :=
+  ⟨(loadRecord_cases ft d arg).1, (loadRecord_cases ft d arg).2.1, (loadRecord_cases ft d arg).2.2.1,
+   (loadRecord_cases ft d arg).2.2.2.1, (loadRecord_cases ft d arg).2.2.2.2.1,
+   (loadRecord_cases ft d arg).2.2.2.2.2, loadRecord_ne_colptr ft d arg⟩
+
+/-- [S] conversely an accepted record passed every test, and the solver is built from the
+record's own data with the settings in force. -/
+theorem load_ok_iff (ft : Features) (d : Record α γ) (arg : Option (LSettings α γ))
+    (inp : SolverInput α γ) :
+    loadRecord ft d arg = .ok inp ↔
+      (d.P.checkFormat = .ok () ∧ d.A.checkFormat = .ok () ∧
+       validateSettings ft (loadSettings d.settings arg) = .ok () ∧
+       d.cones.any badGenpow = false ∧ DimsOk d ∧ inp = inputOf d arg) := by
+  constructor
+  · exact loadRecord_ok ft d arg inp
+  · rintro ⟨hP, hA, hS, hg, hD, rfl⟩
+    exact (loadRecord_cases ft d arg).2.2.2.2.2 hP hA hS hg hD
+
+end verdict
+
+section pre
+variable [Add α] [Sub α] [Mul α] [Div α] [Neg α] [LT α] [LE α] [DecidableLT α] [DecidableLE α]
+  [BEq α] [OfNat α 0] [OfNat α 1] [OfNat α 2] [OfNat α 3] [OfScientific α] [FloatLike α]
+
+omit [Neg α] [LE α] [DecidableLE α] [BEq α] [OfNat α 2] [OfNat α 3] in
+/-- [S] **A validated file meets every precondition of `DefaultSolver::new`.**  If the
+model's validation returns `Ok(inp)` then
+* the five asserts of `_check_dimensions` pass (`NewPre.checkDims`, with the true sizes);
+* `P` and `A` are canonical CSC encodings (`Canonical0`: lengths consistent, `colptr[0] = 0`,
+  monotone, last = nnz, rows strictly increasing per column and `< m`) — what `to_triu`,
+  `select_rows`, the equilibration's `lrscale`/norms, `gemv` and the KKT assembly index on;
+* `Σ nvars = |b|` in true arithmetic (`assert_eq!(cones.numel, data.m)`, `rng_cones`) and no
+  cone's `usize` size arithmetic wraps (`NoWrap`: `α.len() + dim2 < 2^64`, `k·(k+1) < 2^64`) —
+  since /repo fb4bc53; before it a wrapped size could match `|b|`, see
+  `load_wrapped_cone_size_before_fix`;
+* the two assertions of `GenPowerCone::new` hold for every generalized power cone;
+* the option strings are among those the KKT / chordal code matches on;
+* the modelled part of the constructor (`_check_dimensions` with the wrapping sum as compiled,
+  no wrapped cone constructor, `DefaultProblemData::new`: collapse, upper triangle, presolve,
+  row selection, cap) returns a record — it does not panic; with
+  `chordal_decomposition_enable` the model may answer `chordal-not-modelled` (C18's domain),
+  never a panic.
+Hence none of the documented panics (`A and b incompatible dimensions.`, `Constraint
+dimensions inconsistent with size of cones.`, `A and q …`, `P and q …`, `P not square.`,
+the `GenPowerCone` assertions, `capacity overflow` in a cone constructor, out-of-range row /
+column indexing) is reachable from a file that parses and is accepted. -/
+theorem load_validated_implies_new_preconditions (ft : Features) (d : Record α γ)
+    (arg : Option (LSettings α γ)) (inp : SolverInput α γ) (inf : α)
+    (h : loadRecord ft d arg = .ok inp) :
+    NewPre ft inp ∧ NoWrap inp.cones ∧
+    (∃ dd, ProblemData.new inp.P inp.q inp.A inp.b (inp.cones.filter (fun c => c.nvars != 0))
+        inp.settings.rest.presolveEnable false inf = .ok dd ∧
+      (buildFromInput inp inf = .ok dd ∨
+        buildFromInput inp inf = .error (.err "chordal-not-modelled")) ∧
+      (inp.settings.rest.chordalEnable = false → buildFromInput inp inf = .ok dd)) ∧
+    (∀ site, buildFromInput inp inf ≠ .error (.panic site)) := by
+  have hpre := newPre_of_loadRecord ft d arg inp h
+  obtain ⟨_, _, _, _, hD, rfl⟩ := loadRecord_ok ft d arg inp h
+  have hb := buildFromInput_ok (inputOf d arg) inf hpre.canonA hpre.squareP hpre.colsP hpre.colsA
+    hpre.rowsA hD.2.2.2.2
+  refine ⟨hpre, (numel_of_checkedSum _ _ hD.2.2.2.2).2, hb, ?_⟩
+  obtain ⟨dd, _, hor, _⟩ := hb
+  intro site hs
+  rcases hor with h1 | h1 <;> rw [h1] at hs <;> cases hs
+
+end pre
+
+/-- [S] **The finding behind /repo fb4bc53**, as a statement about the two sums: for the cone
+list `[PSDTriangleConeT(2^64 − 2)]` the pre-fix sum (`checked_add` over the *wrapping*
+`nvars()`) is `Some(1)` — so a file with `|b| = 1` passed the dimension test although the
+cone has `(2^64−2)(2^64−1)/2` rows, and `PSDTriangleCone::new` panicked with `capacity
+overflow` — whereas the sum over `checked_nvars` is `None` (→ `inconsistent problem
+dimensions`).  Same for `GenPowerConeT([½,½], 2^64 − 1)`. -/
+theorem load_wrapped_cone_size_before_fix :
+    checkedSumOld [(ConeT.psd 18446744073709551614 : ConeT α)] = some 1 ∧
+    checkedSum [(ConeT.psd 18446744073709551614 : ConeT α)] = none ∧
+    numel [(ConeT.psd 18446744073709551614 : ConeT α)] ≠ 1 ∧
+    (∀ a b : α, checkedSumOld [ConeT.genpow #[a, b] 18446744073709551615] = some 1 ∧
+      checkedSum [ConeT.genpow #[a, b] 18446744073709551615] = none) := by
+  refine ⟨rfl, rfl, ?_, fun a b => ⟨?_, ?_⟩⟩
+  · simp [numel, ConeT.nvars, ConeT.triangularNumber]
+  · simp [checkedSumOld, nvarsU, wrap, usizeMod]
+  · simp [checkedSum, checkedNvars, usizeMod]
+
+end loadfile
+
+/-! ### round 3: the record `save_to_file` writes, and its way back -/
+
+section saveload
+open Clarabel.JsonLoad Clarabel.Cones
+variable {γ : Type}
+variable [Add α] [Sub α] [Mul α] [Div α] [LT α] [DecidableLT α] [OfNat α 0] [OfNat α 1]
+  [OfScientific α] [FloatLike α]
+
+/-- [S] **Save → load round trip at record level.**  Let `s` be what `save_to_file` reads of a
+solver (`solver.data`'s internal `P q A b` with the equilibration vectors, `data.cones`,
+`settings`), well-formed as a problem (`SaveState.Wf`: canonical patterns, matching
+dimensions, valid `GenPowerConeT` exponents, cone sizes adding up to `m` — facts of every
+constructed solver), with valid option strings in the settings in force.  Then loading the
+saved record succeeds, and `DefaultSolver::new` is called with
+* the same patterns (`m, n, colptr, rowval` of `P` and `A`) and the saved numbers
+  `Json.saveData s.st` (what `unscale_on_save` / `exact_when_off` describe);
+* the identical cone list — all seven variants, `GenPowerConeT`'s `α` vector and `dim2`,
+  PSD dimensions included;
+* the settings argument when one is given (`override`), otherwise the saved settings with
+  all fields but `time_limit` unchanged, `time_limit` unchanged unless it was `f64::MAX`,
+  which comes back as `+∞` (`settings_roundtrip`, an equivalent limit by
+  `settings_roundtrip_equivalent_limit`). -/
+theorem save_load_roundtrip (ft : Features) (s : SaveState α γ) (arg : Option (LSettings α γ))
+    (hw : s.Wf) (hS : validateSettings ft (arg.getD s.settings) = .ok ()) :
+    ∃ inp, loadRecord ft (saveRecord s) arg = .ok inp ∧
+      (inp.P.m = s.st.P.m ∧ inp.P.n = s.st.P.n ∧ inp.P.colptr = s.st.P.colptr ∧
+        inp.P.rowval = s.st.P.rowval) ∧
+      (inp.A.m = s.st.A.m ∧ inp.A.n = s.st.A.n ∧ inp.A.colptr = s.st.A.colptr ∧
+        inp.A.rowval = s.st.A.rowval) ∧
+      (inp.P.nzval = (saveData s.st).P ∧ inp.q = (saveData s.st).q ∧
+        inp.A.nzval = (saveData s.st).A ∧ inp.b = (saveData s.st).b) ∧
+      inp.cones = s.cones ∧
+      (∀ a, arg = some a → inp.settings = a) ∧
+      (arg = none → inp.settings.rest = s.settings.rest ∧
+        (s.settings.timeLimit ≠ .maxValue → inp.settings = s.settings) ∧
+        (s.settings.timeLimit = .maxValue → inp.settings = { s.settings with timeLimit := .infinity })) := by
+  refine ⟨savedInput s arg, load_saveRecord ft s arg hw hS, ⟨rfl, rfl, rfl, rfl⟩, ⟨rfl, rfl, rfl, rfl⟩,
+    ⟨rfl, rfl, rfl, rfl⟩, rfl, ?_, ?_⟩
+  · rintro a rfl; rfl
+  · rintro rfl
+    have h := settings_roundtrip s.settings
+    exact ⟨h.2.2.1, h.1, h.2.1⟩
+
+/-- [S] **`new(saved data)` re-derives the same internal problem** (record level, presolve
+and chordal decomposition off): for a solver state whose cone list is in the normal form of
+`new_collapsed` (`C09.collapse_normal`: every `solver.data.cones` is) and whose `P` is stored
+as an upper triangle (`C16.toTriu_spec`: every `solver.data.P` is), the constructor applied
+to the loaded input returns internal data with the **same cone list** (collapse is
+idempotent on normal lists, `C09.collapse_fixpoint`), the same `P` and `A` (the upper
+triangle of an upper triangle is itself; nothing is dropped), the saved `q`, and `b` =
+the saved `b` capped at the infinity bound.  With `load_builds_same_internal` (the cap and
+the drop test are idempotent) this is the internal problem the saving solver had. -/
+theorem load_builds_same_internal_record (s : SaveState α γ) (arg : Option (LSettings α γ)) (inf : α)
+    (hw : s.Wf) (hnorm : Normal s.cones) (htriu : s.st.P.isTriu = true)
+    (hpre : (savedInput s arg).settings.rest.presolveEnable = false)
+    (hch : (savedInput s arg).settings.rest.chordalEnable = false) :
+    ∃ dd, buildFromInput (savedInput s arg) inf = .ok dd ∧
+      dd.cones = s.cones ∧ dd.P = (savedInput s arg).P ∧ dd.q = (saveData s.st).q ∧
+      dd.A = (savedInput s arg).A ∧ dd.b = ProblemData.capB (saveData s.st).b inf ∧
+      dd.presolver = none :=
+  build_savedInput s arg inf hw hnorm htriu hpre hch
+
+end saveload
+
+section saveload_field
+open Clarabel.JsonLoad
+variable {γ : Type}
+
+/-- [F] the round trip in exact arithmetic: with `dinv = 1/d`, `einv = 1/e` the numbers the
+loaded solver is built from are the user-level data `State.abs` of the saving solver
+(`P̂/(c·d·dᵀ)`, `q̂/(c·d)`, `Â/(e·dᵀ)`, `b̂/e`) — composition of `save_load_roundtrip` and
+`unscale_on_save`. -/
+theorem save_load_roundtrip_userdata [Field α] [LT α] [DecidableLT α] [OfScientific α] [FloatLike α]
+    (ft : Features) (s : SaveState α γ) (arg : Option (LSettings α γ))
+    (hw : s.Wf) (hS : validateSettings ft (arg.getD s.settings) = .ok ())
+    (hdinv : ∀ i, s.st.dinv.getD i 0 = (s.st.d.getD i 0)⁻¹)
+    (heinv : ∀ i, s.st.einv.getD i 0 = (s.st.e.getD i 0)⁻¹) :
+    ∃ inp, loadRecord ft (saveRecord s) arg = .ok inp ∧
+      inp.P.nzval = s.st.abs.P ∧ inp.q = s.st.abs.q ∧ inp.A.nzval = s.st.abs.A ∧
+      inp.b = s.st.abs.b ∧ inp.cones = s.cones := by
+  obtain ⟨inp, h, _, _, ⟨h1, h2, h3, h4⟩, hc, _⟩ := save_load_roundtrip ft s arg hw hS
+  have hu := unscale_on_save s.st hdinv heinv
+  exact ⟨inp, h, by rw [h1, hu], by rw [h2, hu], by rw [h3, hu], by rw [h4, hu], hc⟩
+
+end saveload_field
+
+/-! ### round 3: the serde representation of the cone list -/
+
+section conejson
+open Clarabel.JsonCones
+
+/-- [S] **decode ∘ encode = id on every cone variant.**  The decoder of the serde
+representation of `SupportedConeT` (`{"ZeroConeT":n}`, `{"NonnegativeConeT":n}`,
+`{"SecondOrderConeT":n}`, `{"ExponentialConeT":[]}`, `{"PowerConeT":α}`,
+`{"GenPowerConeT":[[α…],dim2]}`, `{"PSDTriangleConeT":n}`) inverts the encoder, for every cone
+whose `usize` payload is a `usize` and every float token layer that round-trips
+(`fparse (ftok a) = some a` — serde_json's printer and `float_roundtrip` parser); hence for
+every cone list, and the encoder is injective: distinct cone lists never share a file. -/
+theorem cone_decode_encode (ftok : α → String) (fparse : String → Option α)
+    (hrt : ∀ a, fparse (ftok a) = some a) :
+    (∀ c : ConeT α, coneFits c = true →
+      decodeCone fparse true (encodeCone ftok c) = some c) ∧
+    (∀ cs : List (ConeT α), (∀ c ∈ cs, coneFits c = true) →
+      decodeCones fparse true (encodeCones ftok cs) = some cs) ∧
+    (∀ c c' : ConeT α, coneFits c = true → coneFits c' = true →
+      encodeCone ftok c = encodeCone ftok c' → c = c') :=
+  ⟨fun c h => decodeCone_encodeCone ftok fparse hrt c h true (fun _ => rfl),
+   fun cs h => decodeCones_encodeCones ftok fparse hrt cs h,
+   fun c c' h1 h2 h => encodeCone_injective ftok fparse hrt c c' h1 h2 h⟩
+
+/-- [S] without the `sdp` feature a file with a PSD cone is rejected (unknown variant), it is
+not read as something else. -/
+theorem cone_decode_psd_needs_sdp (ftok : α → String) (fparse : String → Option α) (n : Nat) :
+    decodeCone fparse false (encodeCone ftok (.psd n : ConeT α)) = none :=
+  decodeCone_psd_without_sdp ftok fparse n
+
+/-- non-vacuity of `cone_decode_encode`: a token layer that round-trips (`Nat` payloads
+printed in decimal), on a list with every variant. -/
+example : decodeCones (fun t => t.toNat?) true
+    (encodeCones Nat.repr [.zero 1, .nonneg 2, .soc 3, .exp, .pow 4, .genpow #[3, 7] 1, .psd 2])
+    = some [.zero 1, .nonneg 2, .soc 3, .exp, .pow 4, .genpow #[3, 7] 1, .psd 2] :=
+  (cone_decode_encode Nat.repr (fun t => t.toNat?) Nat.toNat?_repr).2.1 _
+    (by intro c hc; simp only [List.mem_cons, List.not_mem_nil, or_false] at hc
+        rcases hc with rfl | rfl | rfl | rfl | rfl | rfl | rfl <;> decide)
+
+end conejson
+
+/-! ### non-vacuity of the round-3 theorems (data in `Lemmas/JsonLoad.lean`) -/
+
+section nonvacuity
+open Clarabel.JsonLoad Clarabel.Cones
+attribute [local instance] floatLikeQ
+
+/-- `load_error_kinds`, clause 1: a shifted first column pointer in `P` is
+`invalid matrix P: BadColptr` -/
+example : loadRecord exFeatures exRecordBadP none = .error (.invalidP .badColptr) :=
+  (load_error_kinds exFeatures exRecordBadP none).1 _ rfl
+
+/-- `load_error_kinds`, clause 5: cone sizes that do not add up to `|b|` -/
+example : loadRecord exFeatures exRecordBadDims none = .error .dimensions :=
+  (load_error_kinds exFeatures exRecordBadDims none).2.2.2.2.1 rfl rfl exSettings_valid rfl (by decide)
+
+/-- `load_error_kinds`, clause 3: an unknown option string in the settings argument -/
+example : loadRecord exFeatures exRecord
+    (some { exSettings with rest := { exSettings.rest with directSolveMethod := "foo" } })
+    = .error (.settings .directSolveMethod) :=
+  (load_error_kinds exFeatures exRecord _).2.2.1 rfl rfl _
+    (by simp [validateSettings, validDirectSolveMethod, loadSettings, exSettings, exFeatures])
+
+/-- `load_error_kinds`, clause 6 / hypothesis of `load_validated_implies_new_preconditions`:
+an accepted record -/
+example : loadRecord exFeatures exRecord none = .ok (inputOf exRecord none) :=
+  (load_error_kinds exFeatures exRecord none).2.2.2.2.2.1 rfl rfl exSettings_valid rfl (by decide)
+
+example : NewPre exFeatures (inputOf exRecord none) ∧
+    ∀ site, buildFromInput (inputOf exRecord none) (100 : ℚ) ≠ .error (.panic site) :=
+  let h := load_validated_implies_new_preconditions exFeatures exRecord none _ (100 : ℚ) exRecord_loads
+  ⟨h.1, h.2.2.2⟩
+
+/-- `save_load_roundtrip` on the equilibrated state `exSave` -/
+example : ∃ inp, loadRecord exFeatures (saveRecord exSave) none = .ok inp ∧
+    inp.cones = [.nonneg 1] ∧ inp.settings = exSettings := by
+  obtain ⟨inp, h, _, _, _, hc, _, hs⟩ :=
+    save_load_roundtrip exFeatures exSave none exSave_wf exSettings_valid
+  exact ⟨inp, h, hc, (hs rfl).2.1 (by decide)⟩
+
+/-- `save_load_roundtrip_userdata`: the loaded `P` is the user's `8/(2·2·2) = 1` -/
+example : ∃ inp, loadRecord exFeatures (saveRecord exSave) none = .ok inp ∧
+    inp.P.nzval = exStateQ.abs.P := by
+  obtain ⟨inp, h, hP, _⟩ := save_load_roundtrip_userdata exFeatures exSave none exSave_wf
+    exSettings_valid (by intro i; cases i <;> simp [exSave, exStateQ])
+    (by intro i; cases i <;> simp [exSave, exStateQ])
+  exact ⟨inp, h, hP⟩
+
+/-- `load_builds_same_internal_record`: hypotheses hold for `exSave` -/
+example : ∃ dd, buildFromInput (savedInput exSave none) (100 : ℚ) = .ok dd ∧ dd.cones = [.nonneg 1] := by
+  obtain ⟨dd, h, hc, _⟩ := load_builds_same_internal_record exSave none (100 : ℚ) exSave_wf
+    (by simp [exSave, Normal, Good, ConeT.nvars, ConeT.isNonneg]) rfl rfl rfl
+  exact ⟨dd, h, hc⟩
+
+end nonvacuity
 
 end Clarabel.C19
